@@ -51,6 +51,10 @@ CLAIMED["C13"] = dict(engine="cluster", design="§6 C13",
    technique=TECH + "scheduler-ordered NextFileId/SetMax/Assign/heartbeat/leader-change histories against the real sequencers and master handlers, etcd fault injection (errors, CAS conflicts, restarts) through an in-memory KeysAPI; history oracle (disjoint ranges, nothing at or below keys in use, unique volume ids)",
    text="Every sequencer type is driven for real: memory, snowflake, and etcd over an in-memory compare-and-swap store shared by one or two instances with injected errors and restarts; in system mode one or two real masters (raft stub group) serve Assign with any counts while modelled volume servers report the largest key in use, clients write assigned keys, and leadership moves with assignments not yet written. Over the recorded history no two assignments of a volume overlap, no assignment contains a key reported in use or already written, and NextVolumeId never repeats.",
    note=TOPONOTE + " etcd and raft are stubs: real raft safety and real etcd semantics beyond compare-and-swap are out of scope. Interleaving granularity is one handler / sequencer call.")
+CLAIMED["C38"] = dict(engine="volsim", design="§6 C38, §3.3",
+   technique=TECH + "scheduler-chosen operation order and async-batch composition (worker parked at an H2 yield while requests queue), failing batch sync; recorded invoke/return history checked for linearizability with porcupine against a per-key register",
+   text="2-4 simulated clients issue uploads (immediate and batched fsync path), deletes and reads on the real Store/Volume; the scheduler decides who runs next and how many requests pile up before the async worker processes a batch; histories (<= ~30 operations, unique values, final reads included) are checked with porcupine. Reads apply the volume server handler's cookie rule. The race-detector clause of the statement is not decided by this technique.",
+   note=VOLNOTE + " Return events are stamped when the scheduler observes completion (never earlier than the real return), which can only weaken real-time constraints, never invent them.")
 
 PLANNED = {}
 
